@@ -27,10 +27,15 @@ CLAIMS = {
             "closure: PreBlock, CapBlock, Body, PostBlock) proved for both modes.", "8 C16"),
 }
 
+CLAIMS["C05"] = ("proof", "kwargs_from_call is proved against the closed form of the resolved map (three loop invariants); "
+                 "resolve_kwdefaults and decorate_with_checker are proved to establish the closure facts; the binding theorem "
+                 "(resolved value == the object Python binds, for every named non-variadic parameter of every signature and every "
+                 "call that binds) is a scripted quantifier-free proof with two inductions over the parameter index; the select_* "
+                 "functions pass the resolved refs through.", "8 C05")
+
 NOT_YET = {
     "C03": "invariant wrappers and add_invariant_checks not yet under contract in this round",
     "C04": "metaclass merge units not yet under contract in this round",
-    "C05": "kwargs_from_call closed form is proved; the binding theorem against Python's rule is not yet registered",
     "C06": "interpreter units (_recompute.Visitor) not yet under contract",
     "C07": "interpreter and decorator-inspection units not yet under contract",
     "C09": "_create_violation_error body and decorator validation not yet under contract",
@@ -52,7 +57,7 @@ def main():
             "quick_cmd": "./check %s --tier quick" % pid,
             "thorough_cmd": "./check %s --tier thorough" % pid,
             "evidence_file": "/verif/evidence/%s.json" % pid,
-            "replay_cmd_template": "PYTHONPATH=/repo /venv/bin/python /verif/replay/callfam.py --scenario {path}",
+            "replay_cmd_template": "PYTHONPATH=/repo /venv/bin/python /verif/replay/%s --scenario {path}" % ("bindfam.py" if pid == "C05" else "callfam.py"),
             "engine": "pyvc",
             "level_claimed": {"category": cat, "text": text + " Units: " + UNITS_A + ".", "design_ref": "DESIGN.md section " + ref},
             "level_note": TRUST,
